@@ -1,0 +1,23 @@
+//go:build verif
+
+package batchrelease
+
+import (
+	"k8s.io/apimachinery/pkg/runtime"
+	"k8s.io/client-go/tools/record"
+	"sigs.k8s.io/controller-runtime/pkg/client"
+	"sigs.k8s.io/controller-runtime/pkg/handler"
+)
+
+// NewVerifReconciler builds a BatchReleaseReconciler exactly as newReconciler does, without a manager.
+func NewVerifReconciler(c client.Client, scheme *runtime.Scheme, rec record.EventRecorder) *BatchReleaseReconciler {
+	return &BatchReleaseReconciler{Client: c, Scheme: scheme, recorder: rec, executor: NewReleasePlanExecutor(c, rec)}
+}
+
+// VerifWorkloadEventHandler exposes the unexported workload watch handler.
+func VerifWorkloadEventHandler(r client.Reader) handler.EventHandler {
+	return &workloadEventHandler{Reader: r}
+}
+
+// VerifPodEventHandler exposes the unexported pod watch handler.
+func VerifPodEventHandler(r client.Reader) handler.EventHandler { return &podEventHandler{Reader: r} }
